@@ -349,7 +349,11 @@ func (r *realm) onJoin(sess *wamp.Session) {
 //
 // Note: onLeave() must be called from outside handleInboundMessages so that it
 // is not called for the meta client.
-func (r *realm) onLeave(sess *wamp.Session, shutdown, killAll bool) {
+//
+// A session ended by wamp.session.kill_all leaves like any other killed
+// session: its testaments are published and on_leave is announced, since the
+// caller of kill_all, and any session attaching later, remain to see them.
+func (r *realm) onLeave(sess *wamp.Session, shutdown, _ bool) {
 	var testaments testamentBucket
 	var hasTstm bool
 	sync := make(chan struct{})
@@ -376,7 +380,7 @@ func (r *realm) onLeave(sess *wamp.Session, shutdown, killAll bool) {
 	}
 	<-sync
 
-	if shutdown || killAll {
+	if shutdown {
 		return
 	}
 	if hasTstm {
